@@ -189,6 +189,18 @@ class ChainBuild(Suite):
             dict(classes=[dict(K(0, 'Abc', params=[P('alpha', cfg='z_alpha'), P('beta'), P('gamma', cfg='a_gamma')]), name='abc'),
                           dict(K(1, 'Dep', meta_inputs=[{'cls': 0}]), name='dep')],
                  files={}, base={'name': 'm', 'data': {'tasks': ['@M.*'], 'z_alpha': 1, 'beta': 2, 'a_gamma': 3}}, context=None),
+            # a parameter with a default that the config sets explicitly to None
+            dict(classes=[dict(K(0, 'Abc', params=[P('x'), P('y', default=[5])]), name='abc'),
+                          dict(K(1, 'Dep', meta_inputs=[{'cls': 0}]), name='dep')],
+                 files={}, base={'name': 'm', 'data': {'tasks': ['@M.*'], 'x': 1, 'y': None}}, context=None),
+            # a context mounted under a namespace that itself uses another context without `as`: the used one inherits
+            # the namespace
+            dict(classes=[dict(K(0, 'Abc', params=[P('x', default=[0]), P('y', default=[0])]), name='abc')],
+                 files={'first.json': {'tasks': ['@M.*']}, 'second.json': {'tasks': ['@M.*'], 'x': 2},
+                        'ctx/top.json': {'uses': 'ctx/a.json as ns'}, 'ctx/a.json': {'x': 9, 'uses': 'ctx/b.json'},
+                        'ctx/b.json': {'y': 9}},
+                 base={'name': 'm', 'data': {'tasks': ['@M.*'], 'uses': ['first.json as ns', 'second.json as ns2']}},
+                 context={'file': 'ctx/top.json'}),
             # an import string names exactly one class, also when another class of the module has that name as a prefix
             dict(classes=[K(0, 'Ab'), K(1, 'A'), K(2, 'Abc')], files={}, base={'name': 'm', 'data': {'tasks': ['@M.A']}}, context=None),
             dict(classes=[K(0, 'Ab'), K(1, 'A'), K(2, 'Abc')], files={},
